@@ -56,3 +56,48 @@ Proof.
   intros Hne. rewrite (ddm_rate_exact_gen p errs ddm_e0 0 0 (Z.le_refl 0) (or_introl eq_refl) Hne).
   simpl. reflexivity.
 Qed.
+
+(** ---------- EDDM: the running mean distance between errors (reals) ---------- *)
+Fixpoint eddm_feed (p : @eddm_params NumR) (e : @eddm_e NumR) (n : Z) (oks : list bool) : @eddm_e NumR :=
+  match oks with
+  | [] => e
+  | x :: t => eddm_feed p (fst (eddm_step p e (n + 1) x)) (n + 1) t
+  end.
+
+(** invariant: number of errors counted exactly, and mean distance * #errors = index of the last error *)
+Definition eddm_exact_inv (e : @eddm_e NumR) : Prop :=
+  (0 <= e_n_errors e)%Z /\ (e_n_errors e = 0%Z -> e_idx_curr e = 0%Z /\ e_mean e = 0%R) /\
+  (0 < e_n_errors e -> e_mean e = (IZR (e_idx_curr e) / IZR (e_n_errors e))%R)%Z.
+
+Lemma eddm_step_exact (p : @eddm_params NumR) (e : @eddm_e NumR) n x :
+  eddm_exact_inv e -> eddm_exact_inv (fst (eddm_step p e n x)).
+Proof.
+  intros (H0 & Hz & Hp). unfold eddm_step. destruct x; [exact (conj H0 (conj Hz Hp))|]. cbv zeta.
+  assert (Hm : (e_mean e + (IZR (n - 1 - e_idx_curr e) - e_mean e) / IZR (e_n_errors e + 1) =
+                IZR (n - 1) / IZR (e_n_errors e + 1))%R).
+  { assert (Hne : IZR (e_n_errors e + 1) <> 0%R) by (apply not_0_IZR; lia).
+    destruct (Z.eq_dec (e_n_errors e) 0) as [E0|E0].
+    - destruct (Hz E0) as [Hc Hme]. rewrite Hme, Hc, E0. replace (n - 1 - 0)%Z with (n - 1)%Z by lia. simpl. field.
+    - rewrite (Hp ltac:(lia)). rewrite minus_IZR, plus_IZR.
+      assert (IZR (e_n_errors e) <> 0%R) by (apply not_0_IZR; exact E0).
+      rewrite plus_IZR in Hne. simpl in *. field. split; assumption. }
+  destruct (e_n_errors e + 1 <? eddm_n_threshold p)%Z; unfold eddm_exact_inv; cbn [fst e_n_errors e_idx_curr e_mean];
+    (split; [lia|]); (split; [intros; lia|]); intros _; exact Hm.
+Qed.
+
+Lemma eddm_feed_exact (p : @eddm_params NumR) : forall oks (e : @eddm_e NumR) n,
+  eddm_exact_inv e -> eddm_exact_inv (eddm_feed p e n oks).
+Proof.
+  induction oks as [|x oks IH]; intros e n H; [exact H|]. cbn [eddm_feed]. apply IH. apply eddm_step_exact. exact H.
+Qed.
+
+(** after the outcomes of an epoch: EDDM's mean distance between errors is
+    (0-based index of the last error in the epoch) / (number of errors), i.e. the mean of the gaps *)
+Theorem eddm_mean_exact (p : @eddm_params NumR) oks :
+  let e := eddm_feed p eddm_e0 0 oks in
+  (0 < e_n_errors e)%Z -> e_mean e = (IZR (e_idx_curr e) / IZR (e_n_errors e))%R.
+Proof.
+  intros e H. assert (I : eddm_exact_inv e).
+  { apply eddm_feed_exact. unfold eddm_exact_inv, eddm_e0; simpl. repeat split; intros; try lia; try reflexivity. }
+  destruct I as (_ & _ & Hp). exact (Hp H).
+Qed.
